@@ -1,7 +1,938 @@
 import NeumannModel.Ckpt.Model
 /-
-  C08 — helper lemmas for the checkpoint / rollback model.
+  C08 — helper lemmas for the checkpoint / rollback model (core Lean only).
 -/
 namespace Neumann.Ckpt
+
+/-! ### association lists -/
+section AL
+variable {α β : Type} [DecidableEq α]
+
+theorem alPut_keys (l : List (α × β)) (k : α) (v : β) :
+    (alPut l k v).map (·.1) = if k ∈ l.map (·.1) then l.map (·.1) else l.map (·.1) ++ [k] := by
+  induction l with
+  | nil => simp [alPut]
+  | cons p r ih =>
+    obtain ⟨a, b⟩ := p
+    by_cases h : a = k
+    · subst h; simp [alPut]
+    · have h' : ¬ k = a := fun e => h e.symm
+      simp only [alPut, h, if_false, List.map_cons, ih, List.mem_cons, h', false_or]
+      split <;> simp
+
+theorem alPut_append (l : List (α × β)) (k : α) (v : β) (h : k ∉ l.map (·.1)) :
+    alPut l k v = l ++ [(k, v)] := by
+  induction l with
+  | nil => rfl
+  | cons p r ih =>
+    obtain ⟨a, b⟩ := p
+    simp only [List.map_cons, List.mem_cons, not_or] at h
+    have h1 : ¬ a = k := fun e => h.1 e.symm
+    simp [alPut, h1, ih h.2]
+
+theorem alPut_nodup (l : List (α × β)) (k : α) (v : β) (h : (l.map (·.1)).Nodup) :
+    ((alPut l k v).map (·.1)).Nodup := by
+  rw [alPut_keys]
+  split
+  · exact h
+  · rename_i hk
+    exact List.nodup_append.mpr ⟨h, by simp, by
+      intro a ha b hb
+      simp only [List.mem_singleton] at hb
+      subst hb
+      intro e; subst e; exact hk ha⟩
+
+theorem alPut_mem (l : List (α × β)) (k : α) (v : β) (p : α × β) (h : p ∈ alPut l k v) :
+    p ∈ l ∨ p = (k, v) := by
+  induction l with
+  | nil => simp [alPut] at h; exact Or.inr h
+  | cons q r ih =>
+    obtain ⟨a, b⟩ := q
+    simp only [alPut] at h
+    split at h
+    · rename_i hak
+      simp only [List.mem_cons] at h
+      rcases h with h | h
+      · subst hak; exact Or.inr h
+      · exact Or.inl (List.mem_cons_of_mem _ h)
+    · simp only [List.mem_cons] at h
+      rcases h with h | h
+      · exact Or.inl (by simp [h])
+      · rcases ih h with h | h
+        · exact Or.inl (List.mem_cons_of_mem _ h)
+        · exact Or.inr h
+
+theorem alDel_sublist (l : List (α × β)) (k : α) : (alDel l k).Sublist l := by
+  induction l with
+  | nil => exact List.Sublist.refl _
+  | cons p r ih =>
+    obtain ⟨a, b⟩ := p
+    simp only [alDel]
+    split
+    · exact List.Sublist.cons _ ih
+    · exact List.Sublist.cons_cons _ ih
+
+theorem alDel_nodup (l : List (α × β)) (k : α) (h : (l.map (·.1)).Nodup) :
+    ((alDel l k).map (·.1)).Nodup :=
+  List.Nodup.sublist ((alDel_sublist l k).map _) h
+
+theorem alGet_alPut (l : List (α × β)) (k : α) (v : β) (x : α) :
+    alGet (alPut l k v) x = if k = x then some v else alGet l x := by
+  induction l with
+  | nil => simp [alPut, alGet]
+  | cons p r ih =>
+    obtain ⟨a, b⟩ := p
+    by_cases h : a = k
+    · subst h
+      by_cases hx : a = x <;> simp [alPut, alGet, hx]
+    · by_cases hx : a = x
+      · subst hx
+        have hk : ¬ k = a := fun e => h e.symm
+        simp [alPut, alGet, h, hk]
+      · simp [alPut, alGet, h, hx, ih]
+
+theorem alGet_alDel (l : List (α × β)) (k : α) (x : α) :
+    alGet (alDel l k) x = if k = x then none else alGet l x := by
+  induction l with
+  | nil => simp [alDel, alGet]
+  | cons p r ih =>
+    obtain ⟨a, b⟩ := p
+    by_cases h : a = k
+    · subst h
+      by_cases hx : a = x
+      · subst hx; simpa [alDel] using ih
+      · simp [alDel, alGet, hx, ih]
+    · by_cases hx : a = x
+      · subst hx
+        have hk : ¬ k = a := fun e => h e.symm
+        simp [alDel, alGet, h, hk]
+      · simp [alDel, alGet, h, hx, ih]
+
+theorem alGet_some_of_mem (l : List (α × β)) (h : (l.map (·.1)).Nodup) (p : α × β) (hp : p ∈ l) :
+    alGet l p.1 = some p.2 := by
+  induction l with
+  | nil => cases hp
+  | cons q r ih =>
+    obtain ⟨a, b⟩ := q
+    simp only [List.map_cons, List.nodup_cons] at h
+    simp only [List.mem_cons] at hp
+    rcases hp with hp | hp
+    · subst hp; simp [alGet]
+    · have : a ≠ p.1 := fun e => h.1 (by rw [e]; exact List.mem_map_of_mem hp)
+      simp [alGet, this, ih h.2 hp]
+
+theorem alGet_isSome_iff (l : List (α × β)) (x : α) : (alGet l x).isSome = true ↔ x ∈ l.map (·.1) := by
+  induction l with
+  | nil => simp [alGet]
+  | cons p r ih =>
+    obtain ⟨a, b⟩ := p
+    by_cases h : a = x
+    · simp [alGet, h]
+    · have hk : ¬ x = a := fun e => h e.symm
+      simp [alGet, h, ih, hk]
+
+theorem alHas_iff (l : List (α × β)) (x : α) : alHas l x = true ↔ x ∈ l.map (·.1) := by
+  unfold alHas; exact alGet_isSome_iff l x
+
+end AL
+
+/-! ### retention: the stable descending sort -/
+
+theorem insertDesc_perm (x : Nat × Nat) (l : List (Nat × Nat)) : (insertDesc x l).Perm (x :: l) := by
+  induction l with
+  | nil => exact List.Perm.refl _
+  | cons y ys ih =>
+    simp only [insertDesc]
+    split
+    · exact ((List.Perm.cons y ih).trans (List.Perm.swap x y ys))
+    · exact List.Perm.refl _
+
+theorem sortDesc_perm (l : List (Nat × Nat)) : (sortDesc l).Perm l := by
+  induction l with
+  | nil => exact List.Perm.refl _
+  | cons x xs ih =>
+    show (insertDesc x (sortDesc xs)).Perm (x :: xs)
+    exact (insertDesc_perm x _).trans (List.Perm.cons x ih)
+
+/-- newest first -/
+def DescSorted (l : List (Nat × Nat)) : Prop := l.Pairwise fun a b => b.2 ≤ a.2
+
+theorem insertDesc_sorted (x : Nat × Nat) (l : List (Nat × Nat)) (h : DescSorted l) :
+    DescSorted (insertDesc x l) := by
+  induction l with
+  | nil => simp [insertDesc, DescSorted]
+  | cons y ys ih =>
+    unfold DescSorted at h ih ⊢
+    rw [List.pairwise_cons] at h
+    simp only [insertDesc]
+    split
+    · rename_i hyx
+      rw [List.pairwise_cons]
+      refine ⟨?_, ih h.2⟩
+      intro b hb
+      have hb' : b ∈ x :: ys := (insertDesc_perm x ys).mem_iff.mp hb
+      rcases List.mem_cons.mp hb' with hb' | hb'
+      · subst hb'; omega
+      · exact h.1 b hb'
+    · rename_i hyx
+      rw [List.pairwise_cons]
+      refine ⟨?_, List.pairwise_cons.mpr h⟩
+      intro b hb
+      rcases List.mem_cons.mp hb with hb | hb
+      · subst hb; omega
+      · have := h.1 b hb; omega
+
+theorem sortDesc_sorted (l : List (Nat × Nat)) : DescSorted (sortDesc l) := by
+  induction l with
+  | nil => simp [sortDesc, DescSorted]
+  | cons x xs ih => exact insertDesc_sorted x _ ih
+
+/-! ### the store invariant of the slab-free fragment -/
+
+/-- values that do not touch the embedding slab (no `_embedding` field) -/
+def Val.noSlab : Val → Bool
+  | .raw _ (some _) => false
+  | _ => true
+
+def Key.notCache : Key → Bool
+  | .cache _ => false
+  | _ => true
+
+structure WF0 (s : Store) : Prop where
+  mdNodup : (s.md.map (·.1)).Nodup
+  cacheNodup : (s.cache.map (·.1)).Nodup
+  eidxSub : ∀ n, alHas s.eidx n = true → alHas s.md (.emb n) = true
+  noSlab : s.eslab = []
+  vals : ∀ p ∈ s.md, p.2.noSlab = true ∧ p.1.notCache = true
+  cvals : ∀ p ∈ s.cache, p.2.noSlab = true
+
+theorem WF0.empty : WF0 {} := ⟨by simp, by simp, by simp [alHas, alGet], rfl, by simp, by simp⟩
+
+theorem alHas_alPut_of {α β : Type} [DecidableEq α] (l : List (α × β)) (k : α) (v : β) (x : α)
+    (h : alHas l x = true ∨ k = x) : alHas (alPut l k v) x = true := by
+  unfold alHas at *
+  rw [alGet_alPut]
+  split
+  · rfl
+  · rcases h with h | h
+    · exact h
+    · contradiction
+
+theorem WF0.put_md {s : Store} (h : WF0 s) (k : Key) (v : Val) (hv : v.noSlab = true)
+    (hk : k.notCache = true) :
+    ((alPut s.md k v).map (·.1)).Nodup ∧
+    (∀ p ∈ alPut s.md k v, p.2.noSlab = true ∧ p.1.notCache = true) := by
+  refine ⟨alPut_nodup _ _ _ h.mdNodup, ?_⟩
+  intro p hp
+  rcases alPut_mem _ _ _ _ hp with hp | hp
+  · exact h.vals p hp
+  · subst hp; exact ⟨hv, hk⟩
+
+theorem WF0.put {s : Store} (h : WF0 s) (k : Key) (v : Val) (hv : v.noSlab = true) :
+    WF0 (s.put k v) := by
+  cases k with
+  | emb n =>
+    have hm := h.put_md (.emb n) v hv rfl
+    have hsl : (match v with
+        | .raw _ (some e) => alPut s.eslab
+            (match alGet s.eidx n with
+              | some id => (id, s.eidx, s.enext)
+              | none => (s.enext, s.eidx ++ [(n, s.enext)], s.enext + 1)).1 e
+        | _ => alDel s.eslab
+            (match alGet s.eidx n with
+              | some id => (id, s.eidx, s.enext)
+              | none => (s.enext, s.eidx ++ [(n, s.enext)], s.enext + 1)).1) = [] := by
+      rw [h.noSlab]
+      cases v with
+      | raw x e => cases e with
+        | none => rfl
+        | some e => simp [Val.noSlab] at hv
+      | _ => rfl
+    refine ⟨hm.1, h.cacheNodup, ?_, hsl, hm.2, h.cvals⟩
+    intro m hm'
+    show alHas (alPut s.md (.emb n) v) (.emb m) = true
+    apply alHas_alPut_of
+    by_cases e : n = m
+    · exact Or.inr (by rw [e])
+    · left
+      apply h.eidxSub
+      revert hm'
+      show alHas (match alGet s.eidx n with
+              | some id => (id, s.eidx, s.enext)
+              | none => (s.enext, s.eidx ++ [(n, s.enext)], s.enext + 1)).2.1 m = true → _
+      cases alGet s.eidx n with
+      | some i => exact fun hh => hh
+      | none =>
+        intro hh
+        rw [alHas_iff] at hh ⊢
+        simp only [List.map_append, List.map_cons, List.map_nil, List.mem_append,
+          List.mem_singleton] at hh
+        rcases hh with hh | hh
+        · exact hh
+        · exact absurd hh.symm e
+  | cache n =>
+    refine ⟨h.mdNodup, alPut_nodup _ _ _ h.cacheNodup, h.eidxSub, h.noSlab, h.vals, ?_⟩
+    intro p hp
+    rcases alPut_mem _ _ _ _ hp with hp | hp
+    · exact h.cvals p hp
+    · subst hp; exact hv
+  | tmeta t => have hm := h.put_md (.tmeta t) v hv rfl; exact ⟨hm.1, h.cacheNodup, fun m hm' => alHas_alPut_of _ _ _ _ (Or.inl (h.eidxSub m hm')), h.noSlab, hm.2, h.cvals⟩
+  | hmeta t => have hm := h.put_md (.hmeta t) v hv rfl; exact ⟨hm.1, h.cacheNodup, fun m hm' => alHas_alPut_of _ _ _ _ (Or.inl (h.eidxSub m hm')), h.noSlab, hm.2, h.cvals⟩
+  | hent t x => have hm := h.put_md (.hent t x) v hv rfl; exact ⟨hm.1, h.cacheNodup, fun m hm' => alHas_alPut_of _ _ _ _ (Or.inl (h.eidxSub m hm')), h.noSlab, hm.2, h.cvals⟩
+  | bmeta t => have hm := h.put_md (.bmeta t) v hv rfl; exact ⟨hm.1, h.cacheNodup, fun m hm' => alHas_alPut_of _ _ _ _ (Or.inl (h.eidxSub m hm')), h.noSlab, hm.2, h.cvals⟩
+  | bent t x => have hm := h.put_md (.bent t x) v hv rfl; exact ⟨hm.1, h.cacheNodup, fun m hm' => alHas_alPut_of _ _ _ _ (Or.inl (h.eidxSub m hm')), h.noSlab, hm.2, h.cvals⟩
+  | node i => have hm := h.put_md (.node i) v hv rfl; exact ⟨hm.1, h.cacheNodup, fun m hm' => alHas_alPut_of _ _ _ _ (Or.inl (h.eidxSub m hm')), h.noSlab, hm.2, h.cvals⟩
+  | nout i => have hm := h.put_md (.nout i) v hv rfl; exact ⟨hm.1, h.cacheNodup, fun m hm' => alHas_alPut_of _ _ _ _ (Or.inl (h.eidxSub m hm')), h.noSlab, hm.2, h.cvals⟩
+  | nin i => have hm := h.put_md (.nin i) v hv rfl; exact ⟨hm.1, h.cacheNodup, fun m hm' => alHas_alPut_of _ _ _ _ (Or.inl (h.eidxSub m hm')), h.noSlab, hm.2, h.cvals⟩
+  | edge i => have hm := h.put_md (.edge i) v hv rfl; exact ⟨hm.1, h.cacheNodup, fun m hm' => alHas_alPut_of _ _ _ _ (Or.inl (h.eidxSub m hm')), h.noSlab, hm.2, h.cvals⟩
+  | gidx b => have hm := h.put_md (.gidx b) v hv rfl; exact ⟨hm.1, h.cacheNodup, fun m hm' => alHas_alPut_of _ _ _ _ (Or.inl (h.eidxSub m hm')), h.noSlab, hm.2, h.cvals⟩
+  | plain i => have hm := h.put_md (.plain i) v hv rfl; exact ⟨hm.1, h.cacheNodup, fun m hm' => alHas_alPut_of _ _ _ _ (Or.inl (h.eidxSub m hm')), h.noSlab, hm.2, h.cvals⟩
+
+theorem alHas_alDel {α β : Type} [DecidableEq α] (l : List (α × β)) (k x : α) :
+    alHas (alDel l k) x = true ↔ (k ≠ x ∧ alHas l x = true) := by
+  unfold alHas
+  rw [alGet_alDel]
+  by_cases h : k = x <;> simp [h]
+
+theorem WF0.del_md {s : Store} (h : WF0 s) (k : Key) :
+    ((alDel s.md k).map (·.1)).Nodup ∧
+    (∀ p ∈ alDel s.md k, p.2.noSlab = true ∧ p.1.notCache = true) :=
+  ⟨alDel_nodup _ _ h.mdNodup, fun p hp => h.vals p ((alDel_sublist _ _).subset hp)⟩
+
+theorem WF0.delete {s s' : Store} (h : WF0 s) (k : Key) (hd : s.delete k = some s') : WF0 s' := by
+  unfold Store.delete at hd
+  split at hd
+  · cases hd
+  · have hm := h.del_md k
+    cases k with
+    | emb n =>
+      simp only [Option.some.injEq] at hd
+      subst hd
+      refine ⟨hm.1, h.cacheNodup, ?_, ?_, hm.2, h.cvals⟩
+      · intro m hm'
+        rw [alHas_alDel] at hm' ⊢
+        exact ⟨fun e => hm'.1 (by cases e; rfl), h.eidxSub m hm'.2⟩
+      · show (match alGet s.eidx n with | some id => alDel s.eslab id | none => s.eslab) = []
+        rw [h.noSlab]; cases alGet s.eidx n <;> rfl
+    | cache n =>
+      simp only [Option.some.injEq] at hd
+      subst hd
+      exact ⟨h.mdNodup, alDel_nodup _ _ h.cacheNodup, h.eidxSub, h.noSlab, h.vals,
+        fun p hp => h.cvals p ((alDel_sublist _ _).subset hp)⟩
+    | tmeta t => simp only [Option.some.injEq] at hd; subst hd; exact ⟨hm.1, h.cacheNodup, fun m hm' => (alHas_alDel _ _ _).mpr ⟨(by intro e; cases e), h.eidxSub m hm'⟩, h.noSlab, hm.2, h.cvals⟩
+    | hmeta t => simp only [Option.some.injEq] at hd; subst hd; exact ⟨hm.1, h.cacheNodup, fun m hm' => (alHas_alDel _ _ _).mpr ⟨(by intro e; cases e), h.eidxSub m hm'⟩, h.noSlab, hm.2, h.cvals⟩
+    | hent t x => simp only [Option.some.injEq] at hd; subst hd; exact ⟨hm.1, h.cacheNodup, fun m hm' => (alHas_alDel _ _ _).mpr ⟨(by intro e; cases e), h.eidxSub m hm'⟩, h.noSlab, hm.2, h.cvals⟩
+    | bmeta t => simp only [Option.some.injEq] at hd; subst hd; exact ⟨hm.1, h.cacheNodup, fun m hm' => (alHas_alDel _ _ _).mpr ⟨(by intro e; cases e), h.eidxSub m hm'⟩, h.noSlab, hm.2, h.cvals⟩
+    | bent t x => simp only [Option.some.injEq] at hd; subst hd; exact ⟨hm.1, h.cacheNodup, fun m hm' => (alHas_alDel _ _ _).mpr ⟨(by intro e; cases e), h.eidxSub m hm'⟩, h.noSlab, hm.2, h.cvals⟩
+    | node i => simp only [Option.some.injEq] at hd; subst hd; exact ⟨hm.1, h.cacheNodup, fun m hm' => (alHas_alDel _ _ _).mpr ⟨(by intro e; cases e), h.eidxSub m hm'⟩, h.noSlab, hm.2, h.cvals⟩
+    | nout i => simp only [Option.some.injEq] at hd; subst hd; exact ⟨hm.1, h.cacheNodup, fun m hm' => (alHas_alDel _ _ _).mpr ⟨(by intro e; cases e), h.eidxSub m hm'⟩, h.noSlab, hm.2, h.cvals⟩
+    | nin i => simp only [Option.some.injEq] at hd; subst hd; exact ⟨hm.1, h.cacheNodup, fun m hm' => (alHas_alDel _ _ _).mpr ⟨(by intro e; cases e), h.eidxSub m hm'⟩, h.noSlab, hm.2, h.cvals⟩
+    | edge i => simp only [Option.some.injEq] at hd; subst hd; exact ⟨hm.1, h.cacheNodup, fun m hm' => (alHas_alDel _ _ _).mpr ⟨(by intro e; cases e), h.eidxSub m hm'⟩, h.noSlab, hm.2, h.cvals⟩
+    | gidx b => simp only [Option.some.injEq] at hd; subst hd; exact ⟨hm.1, h.cacheNodup, fun m hm' => (alHas_alDel _ _ _).mpr ⟨(by intro e; cases e), h.eidxSub m hm'⟩, h.noSlab, hm.2, h.cvals⟩
+    | plain i => simp only [Option.some.injEq] at hd; subst hd; exact ⟨hm.1, h.cacheNodup, fun m hm' => (alHas_alDel _ _ _).mpr ⟨(by intro e; cases e), h.eidxSub m hm'⟩, h.noSlab, hm.2, h.cvals⟩
+
+theorem WF0.del {s : Store} (h : WF0 s) (k : Key) : WF0 (s.del k) := by
+  unfold Store.del
+  cases hd : s.delete k with
+  | none => exact h
+  | some s' => exact h.delete k hd
+
+theorem WF0.setRel {s : Store} (h : WF0 s) (r : List (Nat × List Row)) : WF0 { s with rel := r } :=
+  ⟨h.mdNodup, h.cacheNodup, h.eidxSub, h.noSlab, h.vals, h.cvals⟩
+
+theorem WF0.setCps {s : Store} (h : WF0 s) (c : List (Nat × Nat)) : WF0 { s with cps := c } :=
+  ⟨h.mdNodup, h.cacheNodup, h.eidxSub, h.noSlab, h.vals, h.cvals⟩
+
+/-! ### predicates on the store preserved by every data statement -/
+
+structure Closed (P : Store → Prop) : Prop where
+  put : ∀ s k v, v.noSlab = true → P s → P (s.put k v)
+  delete : ∀ s s' k, s.delete k = some s' → P s → P s'
+  rel : ∀ s r, P s → P { s with rel := r }
+
+/-- statements that do not write an `_embedding` field (the embedding-slab path) -/
+def Op.noSlab : Op → Bool
+  | .kput c _ _ (some _) => c != 2
+  | _ => true
+
+/-- relational / graph / vector / raw statements (everything but checkpoint control) -/
+def Op.isData : Op → Bool
+  | .ckpt _ _ => false
+  | .rollback _ => false
+  | .setmax _ => false
+  | _ => true
+
+section ClosedLemmas
+variable {P : Store → Prop} (hP : Closed P)
+include hP
+
+theorem Closed.putOk {s : Store} {k : Key} {v : Val} (h : P s) (hv : v.noSlab = true := by rfl) :
+    P (s.put k v) := hP.put s k v hv h
+
+theorem Closed.p_del (s : Store) (k : Key) (h : P s) : P (s.del k) := by
+  unfold Store.del
+  cases hd : s.delete k with
+  | none => exact h
+  | some s' => exact hP.delete s s' k hd h
+
+theorem Closed.p_setRel (s : Store) (t : Nat) (rows : List Row) (h : P s) : P (setRel s t rows) :=
+  hP.rel s _ h
+
+theorem Closed.p_idxAdd (s : Store) (k : Key) (r : Nat) (h : P s) : P (idxAdd s k r) := by
+  unfold idxAdd
+  simp only
+  split
+  · exact h
+  · refine hP.put _ _ _ ?_ h
+    rfl
+
+theorem Closed.p_idxRemove (s : Store) (k : Key) (r : Nat) (h : P s) : P (idxRemove s k r) := by
+  unfold idxRemove
+  split
+  · simp only
+    split
+    · exact hP.p_del _ _ h
+    · refine hP.put _ _ _ ?_ h
+      rfl
+  · exact h
+
+theorem Closed.p_listAdd (s : Store) (k : Key) (e : Nat) (h : P s) : P (listAdd s k e) := by
+  unfold listAdd
+  exact hP.putOk h
+
+theorem Closed.p_listRemove (s : Store) (k : Key) (e : Nat) (h : P s) : P (listRemove s k e) := by
+  unfold listRemove
+  split
+  · refine hP.put _ _ _ ?_ h
+    rfl
+  · exact h
+
+omit hP in
+theorem Closed.p_foldl {γ : Type} (f : Store → γ → Store) (hf : ∀ s x, P s → P (f s x))
+    (l : List γ) (s : Store) (h : P s) : P (l.foldl f s) := by
+  induction l generalizing s with
+  | nil => exact h
+  | cons x xs ih => exact ih _ (hf s x h)
+
+omit hP in
+theorem Closed.p_foldlPair {β γ : Type} (f : Store × β → γ → Store × β)
+    (hf : ∀ a x, P a.1 → P (f a x).1) (l : List γ) (a : Store × β) (h : P a.1) :
+    P (l.foldl f a).1 := by
+  induction l generalizing a with
+  | nil => exact h
+  | cons x xs ih => exact ih _ (hf a x h)
+
+end ClosedLemmas
+
+section StepClosed
+variable {P : Store → Prop} (hP : Closed P)
+include hP
+
+theorem Closed.rCreate (d : Db) (t : Nat) (h : P d.st) : P (rCreate d t).1.st := by
+  unfold Neumann.Ckpt.rCreate
+  split
+  · exact h
+  · split
+    · exact h
+    · dsimp only
+      refine hP.put _ _ _ ?_ (hP.p_setRel _ _ _ h)
+      rfl
+
+theorem Closed.rInsert (d : Db) (t : Nat) (k v : Int) (h : P d.st) : P (rInsert d t k v).1.st := by
+  unfold Neumann.Ckpt.rInsert
+  split
+  · exact h
+  · split
+    · exact h
+    · simp only
+      have h1 := hP.p_setRel d.st t (‹List Row› ++ [⟨true, k, v⟩]) h
+      split <;> split <;> first | exact hP.p_idxAdd _ _ _ (hP.p_idxAdd _ _ _ h1) | exact hP.p_idxAdd _ _ _ h1 | exact h1
+
+theorem Closed.rDeleteRow (t : Nat) (a b : Bool) (acc : Store × List (Nat × List (Int × List Nat)))
+    (r : Nat × Int × Int) (h : P acc.1) : P (rDeleteRow t a b acc r).1 := by
+  unfold Neumann.Ckpt.rDeleteRow
+  simp only
+  apply hP.p_setRel
+  split <;> split <;>
+    first | exact hP.p_idxRemove _ _ _ (hP.p_idxRemove _ _ _ h) | exact hP.p_idxRemove _ _ _ h | exact h
+
+theorem Closed.rDelete (d : Db) (t : Nat) (k : Int) (h : P d.st) : P (rDelete d t k).1.st := by
+  unfold Neumann.Ckpt.rDelete
+  split
+  · exact h
+  · split
+    · exact h
+    · simp only
+      exact Closed.p_foldlPair _ (fun a x ha => hP.rDeleteRow t _ _ a x ha) _ _ h
+
+theorem Closed.rDrop (d : Db) (t : Nat) (h : P d.st) : P (rDrop d t).1.st := by
+  unfold Neumann.Ckpt.rDrop
+  split
+  · exact h
+  · simp only
+    apply hP.p_del
+    apply Closed.p_foldl _ (fun s x hs => hP.p_del s x hs)
+    exact hP.rel _ _ h
+
+theorem Closed.rHidx (d : Db) (t : Nat) (h : P d.st) : P (rHidx d t).1.st := by
+  unfold Neumann.Ckpt.rHidx
+  split
+  · exact h
+  · split
+    · exact h
+    · simp only
+      have h1 := hP.putOk (k := .hmeta t) (v := .unit) h
+      split
+      · exact h1
+      · exact Closed.p_foldl _ (fun s x hs => hP.p_idxAdd s _ _ hs) _ _ h1
+
+theorem Closed.rBidx (d : Db) (t : Nat) (h : P d.st) : P (rBidx d t).1.st := by
+  unfold Neumann.Ckpt.rBidx
+  split
+  · exact h
+  · split
+    · exact h
+    · simp only
+      have h1 := hP.putOk (k := .bmeta t) (v := .unit) h
+      split
+      · exact h1
+      · exact Closed.p_foldlPair _ (fun a x ha => hP.p_idxAdd a.1 _ _ ha) _ _ h1
+
+theorem Closed.ensureLabelIdx (d : Db) (h : P d.st) : P (ensureLabelIdx d).st := by
+  unfold Neumann.Ckpt.ensureLabelIdx
+  split
+  · exact h
+  · split
+    · exact h
+    · dsimp only
+      refine hP.put _ _ _ ?_ h
+      rfl
+
+theorem Closed.ensureEtypeIdx (d : Db) (h : P d.st) : P (ensureEtypeIdx d).st := by
+  unfold Neumann.Ckpt.ensureEtypeIdx
+  split
+  · exact h
+  · split
+    · exact h
+    · dsimp only
+      refine hP.put _ _ _ ?_ h
+      rfl
+
+theorem Closed.gNode (d : Db) (l : Nat) (h : P d.st) : P (gNode d l).1.st := by
+  unfold Neumann.Ckpt.gNode
+  simp only
+  exact hP.putOk (hP.putOk (hP.putOk (hP.ensureLabelIdx d h)))
+
+theorem Closed.gEdge (d : Db) (a b : Nat) (h : P d.st) : P (gEdge d a b).1.st := by
+  unfold Neumann.Ckpt.gEdge
+  simp only
+  have h0 := hP.ensureEtypeIdx d h
+  split
+  · exact h0
+  · split
+    · exact h0
+    · dsimp only
+      refine hP.p_listAdd _ _ _ (hP.p_listAdd _ _ _ (hP.put _ _ _ ?_ h0))
+      rfl
+
+theorem Closed.gDelEdge (d : Db) (i : Nat) (h : P d.st) : P (gDelEdge d i).1.st := by
+  unfold Neumann.Ckpt.gDelEdge
+  split
+  · exact h
+  · exact hP.p_del _ _ (hP.p_listRemove _ _ _ (hP.p_listRemove _ _ _ h))
+
+theorem Closed.gDelNode (d : Db) (i : Nat) (h : P d.st) : P (gDelNode d i).1.st := by
+  unfold Neumann.Ckpt.gDelNode
+  split
+  · exact h
+  · simp only
+    apply hP.p_del; apply hP.p_del; apply hP.p_del
+    apply Closed.p_foldl _ _ _ _ h
+    intro s e hs
+    split
+    · apply hP.p_del
+      split <;> split <;>
+        first | exact hP.p_listRemove _ _ _ (hP.p_listRemove _ _ _ hs) | exact hP.p_listRemove _ _ _ hs | exact hs
+    · exact hP.p_del _ _ hs
+
+theorem Closed.vPut (d : Db) (k : Nat) (v : Vec) (h : P d.st) : P (vPut d k v).1.st := by
+  unfold Neumann.Ckpt.vPut
+  split
+  · exact h
+  · dsimp only
+    refine hP.put _ _ _ ?_ h
+    rfl
+
+theorem Closed.vDel (d : Db) (k : Nat) (h : P d.st) : P (vDel d k).1.st := by
+  unfold Neumann.Ckpt.vDel
+  split
+  · exact h
+  · rename_i s' hd
+    exact hP.delete _ _ _ hd h
+
+omit hP in
+theorem Closed.vBuild (d : Db) (h : P d.st) : P (vBuild d).1.st := by
+  unfold Neumann.Ckpt.vBuild
+  simp only
+  split
+  · exact h
+  · split
+    · exact h
+    · split <;> exact h
+
+theorem Closed.kPut (d : Db) (c k : Nat) (x : Int) (e : Option Int)
+    (hop : (Op.kput c k x e).noSlab = true) (h : P d.st) : P (kPut d c k x e).1.st := by
+  unfold Neumann.Ckpt.kPut
+  apply hP.put _ _ _ _ h
+  by_cases hc : c = 2
+  · subst hc
+    cases e with
+    | none => rfl
+    | some e => simp [Op.noSlab] at hop
+  · simp [hc, Val.noSlab]
+
+theorem Closed.kDel (d : Db) (c k : Nat) (h : P d.st) : P (kDel d c k).1.st := by
+  unfold Neumann.Ckpt.kDel
+  split
+  · exact h
+  · rename_i s' hd
+    exact hP.delete _ _ _ hd h
+
+/-- every data statement preserves a closed predicate on the store -/
+theorem Closed.step (d : Db) (op : Op) (hop : op.noSlab = true) (hd : op.isData = true)
+    (h : P d.st) : P (step d op).1.st := by
+  cases op with
+  | rcreate t => exact hP.rCreate d t h
+  | rdrop t => exact hP.rDrop d t h
+  | rins t k v => exact hP.rInsert d t k v h
+  | rdel t k => exact hP.rDelete d t k h
+  | rhidx t => exact hP.rHidx d t h
+  | rbidx t => exact hP.rBidx d t h
+  | gnode l => exact hP.gNode d l h
+  | gedge a b => exact hP.gEdge d a b h
+  | gdeln i => exact hP.gDelNode d i h
+  | gdele i => exact hP.gDelEdge d i h
+  | vput k v => exact hP.vPut d k v h
+  | vdel k => exact hP.vDel d k h
+  | vbuild => exact Closed.vBuild d h
+  | kput c k x e => exact hP.kPut d c k x e hop h
+  | kdel c k => exact hP.kDel d c k h
+  | ckpt ts ord => simp [Op.isData] at hd
+  | rollback i => simp [Op.isData] at hd
+  | setmax n => simp [Op.isData] at hd
+
+end StepClosed
+
+theorem WF0.closed : Closed WF0 :=
+  ⟨fun _ k v hv h => h.put k v hv, fun _ _ k hd h => h.delete k hd, fun _ r h => h.setRel r⟩
+
+/-! ### `restore_from_bytes` on an image satisfying the invariant -/
+
+theorem WF0.get_md {img : Store} (h : WF0 img) (p : Key × Val) (hp : p ∈ img.md) :
+    img.get p.1 = some p.2 := by
+  have hg := alGet_some_of_mem img.md h.mdNodup p hp
+  have hc := (h.vals p hp).2
+  obtain ⟨k, v⟩ := p
+  cases k with
+  | emb n =>
+    simp only [Store.get, h.noSlab]
+    cases alGet img.eidx n <;> simpa [alGet] using hg
+  | cache n => simp [Key.notCache] at hc
+  | _ => exact hg
+
+theorem WF0.get_cache {img : Store} (h : WF0 img) (p : Nat × Val) (hp : p ∈ img.cache) :
+    img.get (.cache p.1) = some p.2 :=
+  alGet_some_of_mem img.cache h.cacheNodup p hp
+
+theorem WF0.scanAll {img : Store} (h : WF0 img) :
+    img.scanAll = img.md.map (·.1) ++ img.cache.map fun p => Key.cache p.1 := by
+  unfold Store.scanAll
+  simp only
+  have : ((img.eidx.map fun p => Key.emb p.1).filter fun k => !(img.md.map (·.1)).contains k) = [] := by
+    rw [List.filter_eq_nil_iff]
+    intro k hk
+    simp only [List.mem_map] at hk
+    obtain ⟨q, hq, rfl⟩ := hk
+    have h1 : alHas img.eidx q.1 = true := (alHas_iff _ _).mpr (List.mem_map_of_mem hq)
+    have h2 := (alHas_iff _ _).mp (h.eidxSub _ h1)
+    simp [h2]
+  rw [this, List.append_nil]
+
+theorem put_fields_md (s : Store) (k : Key) (v : Val) (hk : k.notCache = true) :
+    (s.put k v).md = alPut s.md k v ∧ (s.put k v).cache = s.cache ∧ (s.put k v).rel = s.rel ∧
+      (s.put k v).cps = s.cps := by
+  cases k <;> first | exact ⟨rfl, rfl, rfl, rfl⟩ | simp [Key.notCache] at hk
+
+theorem put_fields_cache (s : Store) (n : Nat) (v : Val) :
+    (s.put (.cache n) v).md = s.md ∧ (s.put (.cache n) v).cache = alPut s.cache n v ∧
+      (s.put (.cache n) v).rel = s.rel ∧ (s.put (.cache n) v).cps = s.cps :=
+  ⟨rfl, rfl, rfl, rfl⟩
+
+theorem reput_md_fold (img : Store) (l : List (Key × Val)) (acc : Store)
+    (hl : ∀ p ∈ l, img.get p.1 = some p.2 ∧ p.1.notCache = true)
+    (hn : (acc.md.map (·.1) ++ l.map (·.1)).Nodup) :
+    ((l.map (·.1)).foldl (Store.reput img) acc).md = acc.md ++ l ∧
+    ((l.map (·.1)).foldl (Store.reput img) acc).cache = acc.cache ∧
+    ((l.map (·.1)).foldl (Store.reput img) acc).rel = acc.rel := by
+  induction l generalizing acc with
+  | nil => simp
+  | cons p r ih =>
+    have hp := hl p (by simp)
+    have hstep : Store.reput img acc p.1 = acc.put p.1 p.2 := by simp [Store.reput, hp.1]
+    have hf := put_fields_md acc p.1 p.2 hp.2
+    have hnot : p.1 ∉ acc.md.map (·.1) := by
+      intro hmem
+      have := List.nodup_append.mp hn
+      exact this.2.2 _ hmem _ (by simp) rfl
+    have hmd : (acc.put p.1 p.2).md = acc.md ++ [p] := by
+      rw [hf.1, alPut_append _ _ _ hnot]
+    simp only [List.map_cons, List.foldl_cons, hstep]
+    have := ih (acc.put p.1 p.2) (fun q hq => hl q (by simp [hq])) (by
+      rw [hmd]; simpa [List.append_assoc] using hn)
+    rw [hmd, hf.2.1, hf.2.2.1] at this
+    simpa [List.append_assoc] using this
+
+theorem reput_cache_fold (img : Store) (l : List (Nat × Val)) (acc : Store)
+    (hl : ∀ p ∈ l, img.get (.cache p.1) = some p.2)
+    (hn : (acc.cache.map (·.1) ++ l.map (·.1)).Nodup) :
+    ((l.map fun p => Key.cache p.1).foldl (Store.reput img) acc).md = acc.md ∧
+    ((l.map fun p => Key.cache p.1).foldl (Store.reput img) acc).cache = acc.cache ++ l ∧
+    ((l.map fun p => Key.cache p.1).foldl (Store.reput img) acc).rel = acc.rel := by
+  induction l generalizing acc with
+  | nil => simp
+  | cons p r ih =>
+    have hp := hl p (by simp)
+    have hstep : Store.reput img acc (.cache p.1) = acc.put (.cache p.1) p.2 := by
+      simp [Store.reput, hp]
+    have hnot : p.1 ∉ acc.cache.map (·.1) := by
+      intro hmem
+      have := List.nodup_append.mp hn
+      exact this.2.2 _ hmem _ (by simp) rfl
+    have hc : (acc.put (.cache p.1) p.2).cache = acc.cache ++ [p] := by
+      show alPut acc.cache p.1 p.2 = _
+      rw [alPut_append _ _ _ hnot]
+    simp only [List.map_cons, List.foldl_cons, hstep]
+    have := ih (acc.put (.cache p.1) p.2) (fun q hq => hl q (by simp [hq])) (by
+      rw [hc]; simpa [List.append_assoc] using hn)
+    rw [hc] at this
+    refine ⟨this.1, ?_, this.2.2⟩
+    simpa [List.append_assoc] using this.2.1
+
+/-- restoring a well-formed image gives back its key-addressed content exactly, and NO relational slab -/
+theorem restoreFrom_fields {img : Store} (h : WF0 img) (s : Store) :
+    (Store.restoreFrom img s).md = img.md ∧ (Store.restoreFrom img s).cache = img.cache ∧
+    (Store.restoreFrom img s).rel = [] ∧ (Store.restoreFrom img s).cps = img.cps := by
+  unfold Store.restoreFrom
+  rw [h.scanAll, List.foldl_append]
+  have h1 := reput_md_fold img img.md (Store.clear s)
+    (fun p hp => ⟨h.get_md p hp, (h.vals p hp).2⟩) (by simpa [Store.clear] using h.mdNodup)
+  have h2 := reput_cache_fold img img.cache ((img.md.map (·.1)).foldl (Store.reput img) (Store.clear s))
+    (fun p hp => h.get_cache p hp) (by rw [h1.2.1]; simpa [Store.clear] using h.cacheNodup)
+  refine ⟨?_, ?_, ?_, rfl⟩
+  · show Store.md (List.foldl _ _ _) = _
+    rw [h2.1, h1.1]; simp [Store.clear]
+  · show Store.cache (List.foldl _ _ _) = _
+    rw [h2.2.1, h1.2.1]; simp [Store.clear]
+  · show Store.rel (List.foldl _ _ _) = _
+    rw [h2.2.2, h1.2.2]; simp [Store.clear]
+
+theorem alGet_mem {α β : Type} [DecidableEq α] (l : List (α × β)) (k : α) (v : β)
+    (h : alGet l k = some v) : (k, v) ∈ l := by
+  induction l with
+  | nil => simp [alGet] at h
+  | cons p r ih =>
+    obtain ⟨a, b⟩ := p
+    by_cases e : a = k
+    · simp [alGet, e] at h; subst e; subst h; simp
+    · simp [alGet, e] at h; exact List.mem_cons_of_mem _ (ih h)
+
+theorem WF0.get_noSlab {img : Store} (h : WF0 img) (k : Key) (v : Val) (hg : img.get k = some v) :
+    v.noSlab = true := by
+  cases k with
+  | emb n =>
+    simp only [Store.get, h.noSlab] at hg
+    have hg' : alGet img.md (.emb n) = some v := by
+      cases hh : alGet img.eidx n <;> simpa [hh, alGet] using hg
+    exact (h.vals _ (alGet_mem _ _ _ hg')).1
+  | cache n => exact h.cvals _ (alGet_mem _ _ _ hg)
+  | tmeta t => exact (h.vals _ (alGet_mem _ _ _ hg)).1
+  | hmeta t => exact (h.vals _ (alGet_mem _ _ _ hg)).1
+  | hent t x => exact (h.vals _ (alGet_mem _ _ _ hg)).1
+  | bmeta t => exact (h.vals _ (alGet_mem _ _ _ hg)).1
+  | bent t x => exact (h.vals _ (alGet_mem _ _ _ hg)).1
+  | node i => exact (h.vals _ (alGet_mem _ _ _ hg)).1
+  | nout i => exact (h.vals _ (alGet_mem _ _ _ hg)).1
+  | nin i => exact (h.vals _ (alGet_mem _ _ _ hg)).1
+  | edge i => exact (h.vals _ (alGet_mem _ _ _ hg)).1
+  | gidx b => exact (h.vals _ (alGet_mem _ _ _ hg)).1
+  | plain i => exact (h.vals _ (alGet_mem _ _ _ hg)).1
+
+theorem restoreFrom_wf {img : Store} (h : WF0 img) (s : Store) : WF0 (Store.restoreFrom img s) := by
+  unfold Store.restoreFrom
+  apply WF0.setCps
+  apply Closed.p_foldl (P := WF0)
+  · intro a k ha
+    unfold Store.reput
+    cases hg : img.get k with
+    | none => exact ha
+    | some v => exact ha.put k v (h.get_noSlab k v hg)
+  · exact WF0.empty
+
+/-! ### frame: data statements never touch the checkpoint archive -/
+
+syntax "frame_tac" : tactic
+macro_rules
+  | `(tactic| frame_tac) => `(tactic| repeat (first | exact ⟨rfl, rfl⟩ | split | dsimp only))
+
+theorem ensureLabelIdx_frame (d : Db) :
+    (ensureLabelIdx d).arch = d.arch ∧ (ensureLabelIdx d).nextCk = d.nextCk := by
+  unfold ensureLabelIdx; frame_tac
+
+theorem ensureEtypeIdx_frame (d : Db) :
+    (ensureEtypeIdx d).arch = d.arch ∧ (ensureEtypeIdx d).nextCk = d.nextCk := by
+  unfold ensureEtypeIdx; frame_tac
+
+theorem step_frame (d : Db) (op : Op) (hd : op.isData = true) :
+    (step d op).1.arch = d.arch ∧ (step d op).1.nextCk = d.nextCk := by
+  cases op with
+  | rcreate t => simp only [step]; unfold rCreate; frame_tac
+  | rdrop t => simp only [step]; unfold rDrop; frame_tac
+  | rins t k v => simp only [step]; unfold rInsert; frame_tac
+  | rdel t k => simp only [step]; unfold rDelete; frame_tac
+  | rhidx t => simp only [step]; unfold rHidx; frame_tac
+  | rbidx t => simp only [step]; unfold rBidx; frame_tac
+  | gnode l => simp only [step]; unfold gNode; exact ensureLabelIdx_frame d
+  | gedge a b =>
+    simp only [step]; unfold gEdge
+    have := ensureEtypeIdx_frame d
+    simp only
+    repeat (first | exact this | split)
+  | gdeln i => simp only [step]; unfold gDelNode; frame_tac
+  | gdele i => simp only [step]; unfold gDelEdge; frame_tac
+  | vput k v => simp only [step]; unfold vPut; frame_tac
+  | vdel k => simp only [step]; unfold vDel; frame_tac
+  | vbuild => simp only [step]; unfold vBuild; frame_tac
+  | kput c k x e => simp only [step]; unfold kPut; frame_tac
+  | kdel c k => simp only [step]; unfold kDel; frame_tac
+  | ckpt ts ord => simp [Op.isData] at hd
+  | rollback i => simp [Op.isData] at hd
+  | setmax n => simp [Op.isData] at hd
+
+/-! ### the database invariant along statement sequences -/
+
+structure DbInv (d : Db) : Prop where
+  wf : WF0 d.st
+  arch : ∀ c ∈ d.arch, WF0 c.img
+  ids : d.arch.map (·.id) = List.range d.nextCk
+
+theorem DbInv.init : DbInv {} := ⟨WF0.empty, by simp, by simp⟩
+
+theorem loadCk_mem (d : Db) (i : Nat) (c : Ckpt) (h : loadCk d i = some c) : c ∈ d.arch ∧ c.id = i := by
+  unfold loadCk at h
+  split at h
+  · exact ⟨List.mem_of_find?_eq_some h, by simpa using List.find?_some h⟩
+  · cases h
+
+theorem DbInv.step {d : Db} (h : DbInv d) (op : Op) (hop : op.noSlab = true) : DbInv (step d op).1 := by
+  by_cases hd : op.isData = true
+  · have hf := step_frame d op hd
+    exact ⟨WF0.closed.step d op hop hd h.wf, by rw [hf.1]; exact h.arch, by rw [hf.1, hf.2]; exact h.ids⟩
+  · cases op with
+    | ckpt ts ord =>
+      simp only [Neumann.Ckpt.step, doCkpt]
+      refine ⟨h.wf.setCps _, ?_, ?_⟩
+      · intro c hc
+        rcases List.mem_append.mp hc with hc | hc
+        · exact h.arch c hc
+        · simp only [List.mem_singleton] at hc; subst hc; exact h.wf
+      · simp only [List.map_append, List.map_cons, List.map_nil, h.ids, List.range_succ]
+    | rollback i =>
+      simp only [Neumann.Ckpt.step, doRollback]
+      cases hl : loadCk d i with
+      | none => exact h
+      | some c => exact ⟨restoreFrom_wf (h.arch c (loadCk_mem d i c hl).1) _, h.arch, h.ids⟩
+    | setmax n => exact ⟨h.wf, h.arch, h.ids⟩
+    | _ => simp [Op.isData] at hd
+
+theorem run_cons (d : Db) (op : Op) (ops : List Op) : run d (op :: ops) = run (step d op).1 ops := rfl
+
+theorem DbInv.run {d : Db} (h : DbInv d) (ops : List Op) (hops : ∀ op ∈ ops, op.noSlab = true) :
+    DbInv (run d ops) := by
+  induction ops generalizing d with
+  | nil => exact h
+  | cons op ops ih =>
+    rw [run_cons]
+    exact ih (h.step op (hops op (by simp))) (fun o ho => hops o (by simp [ho]))
+
+theorem step_arch_prefix (d : Db) (op : Op) : ∃ ext, (step d op).1.arch = d.arch ++ ext := by
+  by_cases hd : op.isData = true
+  · exact ⟨[], by rw [(step_frame d op hd).1]; simp⟩
+  · cases op with
+    | ckpt ts ord => exact ⟨_, rfl⟩
+    | rollback i =>
+      refine ⟨[], ?_⟩
+      simp only [Neumann.Ckpt.step, doRollback]
+      cases loadCk d i <;> simp
+    | setmax n => exact ⟨[], by simp [Neumann.Ckpt.step]⟩
+    | _ => simp [Op.isData] at hd
+
+theorem run_arch_prefix (d : Db) (ops : List Op) : ∃ ext, (run d ops).arch = d.arch ++ ext := by
+  induction ops generalizing d with
+  | nil => exact ⟨[], by simp [run]⟩
+  | cons op ops ih =>
+    rw [run_cons]
+    obtain ⟨e1, h1⟩ := step_arch_prefix d op
+    obtain ⟨e2, h2⟩ := ih (step d op).1
+    exact ⟨e1 ++ e2, by rw [h2, h1, List.append_assoc]⟩
+
+/-- the blob written by a checkpoint statement is what any later load of its id returns -/
+theorem load_after (d0 : Db) (h : DbInv d0) (ts : Nat) (ord : List Nat) (post : List Op) (c : Ckpt)
+    (hl : loadCk (run (step d0 (.ckpt ts ord)).1 post) d0.nextCk = some c) : c.img = d0.st := by
+  obtain ⟨ext, he⟩ := run_arch_prefix (step d0 (.ckpt ts ord)).1 post
+  unfold loadCk at hl
+  split at hl
+  · rw [he] at hl
+    have h1 : (step d0 (.ckpt ts ord)).1.arch = d0.arch ++ [⟨d0.nextCk, ts, d0.st⟩] := rfl
+    rw [h1, List.append_assoc, List.find?_append] at hl
+    have hnone : d0.arch.find? (fun x => decide (x.id = d0.nextCk)) = none := by
+      rw [List.find?_eq_none]
+      intro x hx
+      have : x.id ∈ d0.arch.map (·.id) := List.mem_map_of_mem hx
+      rw [h.ids, List.mem_range] at this
+      simp; omega
+    rw [hnone] at hl
+    simp at hl
+    rw [← hl]
+  · cases hl
+
+/-! ### observations that read through `scan` / `get` only -/
+
+theorem WF0.view_eq {a b : Store} (ha : WF0 a) (hb : WF0 b) (hmd : a.md = b.md) (hc : a.cache = b.cache) :
+    a.get = b.get ∧ a.has = b.has ∧ a.scanAll = b.scanAll := by
+  refine ⟨?_, ?_, ?_⟩
+  · funext k
+    cases k with
+    | emb n =>
+      simp only [Store.get, ha.noSlab, hb.noSlab, hmd]
+      cases alGet a.eidx n <;> cases alGet b.eidx n <;> simp [alGet]
+    | cache n => simp only [Store.get, hc]
+    | _ => simp only [Store.get, hmd]
+  · funext k
+    cases k with
+    | emb n =>
+      simp only [Store.has]
+      have h1 := ha.eidxSub n
+      have h2 := hb.eidxSub n
+      rw [hmd] at h1
+      cases e1 : alHas a.eidx n <;> cases e2 : alHas b.eidx n <;> simp_all
+    | cache n => simp only [Store.has, hc]
+    | _ => simp only [Store.has, hmd]
+  · rw [ha.scanAll, hb.scanAll, hmd, hc]
+
+theorem kvObs_congr (d d' : Db) (hmd : d.st.md = d'.st.md) (hg : d.st.get = d'.st.get)
+    (hh : d.st.has = d'.st.has) (hs : d.st.scanAll = d'.st.scanAll) : kvObs d = kvObs d' := by
+  unfold kvObs qNodes qEdges qNeighbors qEmbs qRaw tables nodeIds edgeIds nodeLabel edgeEnds embKeys
+    getEmbedding
+  simp only [hmd, hg, hh, hs]
 
 end Neumann.Ckpt
